@@ -122,7 +122,7 @@ pub fn record(output: &str) {
         let mut reconfigured = false;
         // rep 4 repeats the pose of rep 0 after the cell was re-configured through the public fields of the body
         let mut pose0: Option<(Joints, Joints)> = None;
-        for rep in 0..5 {
+        for rep in 0..6 {
             if rep == 4 {
                 // an obstacle at the tool of the first free answer of the earlier query (even cases), or a safety
                 // margin of 25 cm towards the environment (odd cases)
@@ -148,7 +148,16 @@ pub fn record(output: &str) {
             if rep == 2 { q[4] = 10f64.powf(r.gen_range(-7.0..-3.8)); }
             let want = case.reference.ofk(&q);
             let pose = want.to_na();
-            let prev: Joints = if rep == 2 { q } else if rep == 3 { rs_opw_kinematics::kinematic_traits::CONSTRAINT_CENTERED } else { std::array::from_fn(|i| q[i] + r.gen_range(-0.1..0.1)) };
+            // rep 5: one small step of a Cartesian move: previous = the stack's own answer for the pose 2 um .. 0.9 mm back
+            // along a random direction (same orientation)
+            let stepped: Option<Joints> = if rep == 5 {
+                let d = [r.gen_range(-1.0..1.0), r.gen_range(-1.0..1.0), r.gen_range(-1.0..1.0f64)];
+                let len = 10f64.powf(r.gen_range(-5.7..-3.05)) / oracle::norm(&d).max(1e-3);
+                let mut back = want;
+                back.t = oracle::add(&back.t, &oracle::scale(len, &d));
+                guarded(|| kws.kinematics.inverse_continuing(&back.to_na(), &q)).and_then(|a| a.first().copied())
+            } else { None };
+            let prev: Joints = if let Some(p) = stepped { p } else if rep == 2 { q } else if rep == 3 { rs_opw_kinematics::kinematic_traits::CONSTRAINT_CENTERED } else { std::array::from_fn(|i| q[i] + r.gen_range(-0.1..0.1)) };
             for entry in ["inverse", "inverse_continuing", "inverse_5dof", "inverse_continuing_5dof"] {
                 // 5-DOF entries presuppose an axial tool: only for the axial-tool cases
                 if entry.contains("5dof") && k % 2 != 0 { continue; }
@@ -203,7 +212,13 @@ pub fn record(output: &str) {
                 }
                 if !tm_ok { pos_ok = false; }
                 if let Some(t) = &pr.tool { let t6: nalgebra::Isometry3<f32> = links[5].cast(); if t.transform != t6 { pos_ok = false; } }
-                out.put(json!({"ev": "shape", "outcome": "ok", "entry": entry, "ctor": case.ctor, "case": k,
+                // every answer of the robot with shape maps back onto the requested pose (tool point and axis for the 5-DOF entries)
+                let outer_n = outer.iter().map(|a| {
+                    if !a.iter().all(|x| x.is_finite()) { return 2_000_000_000i64; }
+                    let b = case.reference.ofk(a);
+                    nano(b.dpos(&want).max(if entry.contains("5dof") { b.daxis(&want) } else { b.drot(&want) }))
+                }).max().unwrap_or(0);
+                out.put(json!({"ev": "shape", "outcome": "ok", "entry": entry, "ctor": case.ctor, "case": k, "outer_n": outer_n,
                     "inner": inner.iter().map(au6).collect::<Vec<_>>(), "outer": outer.iter().map(au6).collect::<Vec<_>>(),
                     "collides": coll, "collides_body": coll_body, "outer_exact_subsequence": is_subsequence(&outer, &inner, &coll),
                     "fwd_n": nano(f.dpos(&want).max(f.drot(&want))), "links_n": nano(link_err), "limits_same": lim_same, "sing_same": sing_same, "positioned_ok": pos_ok, "rep": rep,
